@@ -99,10 +99,112 @@ def prec_lattice(tier):
             out.append(prec_program(typ, prompt, rev, wrev, dep, defaults, rk))
     out += nest_lattice()
     out += choice_lattice()
+    out += setsym_lattice()
+    out += edge_lattice()
     if tier == "quick":
         # fixed, seed-independent slice
         keep = [p for k, p in enumerate(out) if p["family"] != "F-prec" or k % 9 == 0]
         return keep
+    return out
+
+
+# ------------------------------------------------------------------ option-valued set / set default
+def setsym_lattice():
+    out = []
+    for kind, prompt, cond in itertools.product(("sets", "wsets"), (0, 1), (0, 1)):
+        ents, order, vars_ = [], [], []
+
+        def add(e, cands):
+            ents.append(e)
+            order.append(["s", e["name"]])
+            if cands:
+                vars_.append({"n": e["name"], "kind": "sym", "cands": cands})
+
+        add(gate("G"), [NOVAL, "n"])
+        add(mk_config("SRC", "string", prompt=Y, defaults=[{"v": C("sv"), "c": Y}]), [NOVAL, "zz", ""])
+        u1 = gate("U1", "n")
+        u1[kind].append({"t": "T", "v": S("SRC"), "c": (S("G") if cond else Y), "str": True})
+        add(u1, [NOVAL, "y"])
+        add(mk_config("T", "string", prompt=(Y if prompt else None), defaults=[{"v": C("fb"), "c": Y}]), [NOVAL, "x"])
+        add(mk_config("OBS", "bool", prompt=None, defaults=[{"v": Y, "c": ["=", S("T"), C("zz")]}]), None)
+        out.append({"prog": ents, "ord": order, "vars": vars_, "family": "F-setsym", "point": dict(kind=kind, prompt=prompt, cond=cond)})
+    return out
+
+
+# ------------------------------------------------------------------ one program per dependency-edge kind
+def edge_lattice():
+    """T depends on G through exactly one kind of edge; OBS reads T."""
+    out = []
+
+    def prog(edge, ents, vars_, order=None):
+        order = order or [["s", e["name"]] for e in ents if e["k"] == "config"]
+        out.append({"prog": ents, "ord": order, "vars": vars_, "family": "F-edge", "point": {"edge": edge}})
+
+    gv = {"n": "G", "kind": "sym", "cands": [NOVAL, "n"]}
+    uv = {"n": "U", "kind": "sym", "cands": [NOVAL, "y"]}
+    obs_b = lambda: mk_config("OBS", "bool", defaults=[{"v": Y, "c": S("T")}])  # noqa: E731
+    obs_i = lambda lit: mk_config("OBS", "bool", defaults=[{"v": Y, "c": ["=", S("T"), C(lit)]}])  # noqa: E731
+    tb = {"n": "T", "kind": "sym", "cands": [NOVAL, "y", "n"]}
+    ti = {"n": "T", "kind": "sym", "cands": [NOVAL, "3", "7"]}
+    # bool targets
+    prog("prompt-cond", [gate("G"), mk_config("T", "bool", prompt=S("G"), defaults=[{"v": N, "c": Y}]), obs_b()], [gv, tb])
+    prog("default-cond", [gate("G"), mk_config("T", "int", prompt=None, defaults=[{"v": C("1"), "c": S("G")}, {"v": C("2"), "c": Y}]), obs_i("1")], [gv])
+    prog("default-value-bool", [gate("G"), mk_config("T", "bool", prompt=None, defaults=[{"v": S("G"), "c": Y}]), obs_b()], [gv])
+    g_int = mk_config("G", "int", prompt=Y, defaults=[{"v": C("5"), "c": Y}])
+    giv = {"n": "G", "kind": "sym", "cands": [NOVAL, "3", "10"]}
+    prog("default-value-sym", [g_int, mk_config("T", "int", prompt=None, defaults=[{"v": S("G"), "c": Y}]), obs_i("3")], [giv])
+    g = gate("G", "n")
+    g["selects"].append({"t": "T", "c": Y})
+    prog("select-source", [g, mk_config("T", "bool", prompt=Y), obs_b()], [{"n": "G", "kind": "sym", "cands": [NOVAL, "y"]}, tb])
+    u = gate("U", "n")
+    u["selects"].append({"t": "T", "c": S("G")})
+    prog("select-cond", [gate("G"), u, mk_config("T", "bool", prompt=Y), obs_b()], [gv, uv, tb])
+    g = gate("G", "n")
+    g["implies"].append({"t": "T", "c": Y})
+    prog("imply-source", [g, mk_config("T", "bool", prompt=Y), obs_b()], [{"n": "G", "kind": "sym", "cands": [NOVAL, "y"]}, tb])
+    u = gate("U", "n")
+    u["implies"].append({"t": "T", "c": S("G")})
+    prog("imply-cond", [gate("G"), u, mk_config("T", "bool", prompt=None), obs_b()], [gv, uv])
+    u = gate("U", "n")
+    u["implies"].append({"t": "T", "c": Y})
+    prog("direct-dep-only", [gate("G"), u, mk_config("T", "bool", prompt=None, dep=S("G")), obs_b()], [gv, uv])
+    prog("depends-on-prompt", [gate("G"), mk_config("T", "bool", prompt=Y, dep=S("G"), defaults=[{"v": Y, "c": Y}]), obs_b()], [gv, tb])
+    # numeric targets
+    prog("range-lo", [g_int, mk_config("T", "int", prompt=Y, ranges=[{"lo": S("G"), "hi": C("100"), "c": Y}], defaults=[{"v": C("1"), "c": Y}]), obs_i("3")], [giv, ti])
+    prog("range-hi", [g_int, mk_config("T", "int", prompt=Y, ranges=[{"lo": C("0"), "hi": S("G"), "c": Y}], defaults=[{"v": C("11"), "c": Y}]), obs_i("3")], [giv, ti])
+    prog("range-cond", [gate("G"), mk_config("T", "int", prompt=Y, ranges=[{"lo": C("1"), "hi": C("5"), "c": S("G")}], defaults=[{"v": C("11"), "c": Y}]), obs_i("5")], [gv, ti])
+    for kind in ("sets", "wsets"):
+        g = gate("G", "n")
+        g[kind].append({"t": "T", "v": C("3"), "c": Y, "str": False})
+        prog(kind + "-source", [g, mk_config("T", "int", prompt=Y, defaults=[{"v": C("1"), "c": Y}]), obs_i("3")], [{"n": "G", "kind": "sym", "cands": [NOVAL, "y"]}, ti])
+        u = gate("U", "n")
+        u[kind].append({"t": "T", "v": C("3"), "c": S("G"), "str": False})
+        prog(kind + "-cond", [gate("G"), u, mk_config("T", "int", prompt=Y, defaults=[{"v": C("1"), "c": Y}]), obs_i("3")], [gv, uv, ti])
+        u = gate("U", "n")
+        u[kind].append({"t": "T", "v": S("G"), "c": Y, "str": True})
+        g_str = mk_config("G", "string", prompt=Y, defaults=[{"v": C("sv"), "c": Y}])
+        prog(kind + "-value-sym", [g_str, u, mk_config("T", "string", prompt=Y, defaults=[{"v": C("fb"), "c": Y}]), mk_config("OBS", "bool", defaults=[{"v": Y, "c": ["=", S("T"), C("zz")]}])], [{"n": "G", "kind": "sym", "cands": [NOVAL, "zz"]}, uv, {"n": "T", "kind": "sym", "cands": [NOVAL, "x"]}])
+    # containers
+    t = mk_config("T", "bool", prompt=Y, defaults=[{"v": Y, "c": Y}])
+    prog("menu-dep", [gate("G"), {"k": "menu", "title": "m", "dep": S("G"), "visif": Y, "children": [t]}, obs_b()], [gv, tb], [["s", "G"], ["s", "T"], ["s", "OBS"]])
+    t = mk_config("T", "bool", prompt=Y, defaults=[{"v": Y, "c": Y}])
+    prog("menu-visible-if", [gate("G"), {"k": "menu", "title": "m", "dep": Y, "visif": S("G"), "children": [t]}, obs_b()], [gv, tb], [["s", "G"], ["s", "T"], ["s", "OBS"]])
+    t = mk_config("T", "bool", prompt=Y, defaults=[{"v": Y, "c": Y}])
+    prog("if", [gate("G"), {"k": "if", "c": S("G"), "children": [t]}, obs_b()], [gv, tb], [["s", "G"], ["s", "T"], ["s", "OBS"]])
+    # choices
+    for edge in ("member-prompt", "choice-prompt", "choice-default", "choice-dep"):
+        m1 = mk_config("M1", "bool", prompt=(S("G") if edge == "member-prompt" else Y))
+        m2 = mk_config("T", "bool", prompt=Y)
+        ch = {
+            "k": "choice",
+            "id": "<choice 1>",
+            "title": "ch",
+            "prompt": [S("G") if edge == "choice-prompt" else Y],
+            "dep": S("G") if edge == "choice-dep" else Y,
+            "defaults": [{"m": "T", "c": S("G")}] if edge == "choice-default" else [],
+            "children": [m1, m2],
+        }
+        prog(edge, [gate("G"), ch, obs_b()], [gv, {"n": "<choice 1>", "kind": "choice", "cands": [NOVAL, "M1", "T"]}], [["s", "G"], ["ch", "<choice 1>"], ["s", "M1"], ["s", "T"], ["s", "OBS"]])
     return out
 
 
